@@ -54,7 +54,7 @@ func transports() []string {
 	if vt.Thorough() {
 		return []string{"netpipe", "unix", "script", "tcp", "tls", "fdpipe"}
 	}
-	return []string{"netpipe", "unix", "script", "script", "tcp", "fdpipe"}
+	return []string{"netpipe", "unix", "script", "script", "tcp", "fdpipe", "netpipe", "unix", "tls"}
 }
 
 func genCase(t *rapid.T) Case {
@@ -183,6 +183,11 @@ func connect(c Case, register func(e qnet.EndPoint)) (a, b qnet.EndPoint, cleanu
 		acc := make(chan gonet.Conn, 1)
 		go func() {
 			conn, e := l.Accept()
+			if tc, ok := conn.(*tls.Conn); ok && e == nil {
+				// the dialling side completes its handshake inside Dial: the
+				// accepting side must take part before anybody reads from it
+				e = tc.Handshake()
+			}
 			if e == nil {
 				acc <- conn
 			} else {
